@@ -309,6 +309,16 @@ pub uninterp spec fn spec_varint_%(ty)s(s: Seq<u8>) -> %(ty)s;
 //@after 1 /let SIZE: usize/
     proof { broadcast use vstd::layout::layout_of_primitives; }
 //@@end
+//@@fn file=allocator.rs src=expanded scope="%(scope)s" name=get_%(ty)s_%(o)s_unchecked xlate=plain props=C15
+//@subst /let buf = unsafe \\{\\s*let ptr = self\\.raw_ptr\\(\\)\\.add\\((.+?)\\);\\s*core::slice::from_raw_parts\\(ptr, (.+?)\\)\\s*\\}\\s*;/ => let buf = self.mem_read(\\1, \\2);
+//@subst /%(ty)s::from_(be|le)_bytes\\(buf\\.try_into\\(\\)\\.unwrap\\(\\)\\)/ => from_\\1_bytes_%(ty)s(buf)
+//@contract
+  requires self.inv(), offset as int + %(sz)d <= self.allocated as int, // the caller's safety obligation
+  ensures
+    r == spec_from_%(o)s_%(ty)s(self.mem@.subrange(offset as int, offset as int + %(sz)d)), // [C15]
+//@after 1 /let SIZE: usize/
+    proof { broadcast use vstd::layout::layout_of_primitives; }
+//@@end
 ''' % dict(scope=TRAIT_SCOPE, ty=ty, sz=sz, o=o))
     for ty, n in RD_VARINT:
         parts.append('''
